@@ -15,6 +15,22 @@ from . import c13
 PROP = "C14"
 
 
+def gen_many(rng, cid):
+    """many variables: the ids get two and three digits (keys / tables indexed by printed ids must not collide)"""
+    lines = [f"case {cid}"]
+    n = rng.randint(113, 130)
+    for i in range(n):
+        lines.append("new 0 " + " ".join(map(str, rng.sample(range(0, 4), 2))))
+    pairs = [(1, 112), (11, 12), (2, 113 if n > 113 else 112), (21, 13), (1, 12), (11, 2), (10, 1), (101, 0), (1, 10)]
+    rng.shuffle(pairs)
+    for a, b in pairs:
+        lines.append(f"oveq {a} {b}")
+    lines.append("prop")
+    for a, b in pairs[:4]:
+        lines.append(f"oveq {a} {b}")
+    return lines
+
+
 def gen_case(rng, cid):
     lines = [f"case {cid}"]
     nvars = 0
@@ -199,6 +215,20 @@ def run(tier, seed, replay=None):
             lines += cl + tail
     impl, model, aborts, maborts = vlib.run_pair("ov", exe, lines, case_prefix="case ")
     cases = c13.split_cases(lines, impl, model)
+    # many variables (ids with two and three digits): answers only, the dumps of such states are large
+    many_probe = {}
+    if not replay:
+        ml = gen_many(rng, 999999)
+        mi, _ = vlib.run_lines(vlib.impl_cmd(exe), ml, "case ", 900)
+        mm, _ = vlib.run_lines([vlib.model_exe(), "ov"], ml, "case ", 1800)
+        many_probe = {"lines": len(ml), "variables": sum(1 for l in ml if l.startswith("new"))}
+        for ln, a, b in zip(ml, mi, mm):
+            ha, hb = (a or "").split(" | ")[0], (b or "").split(" | ")[0]
+            if ha != hb:
+                rep.violation(f"many variables: `{ln}` answers `{ha[:120]}` in the implementation and `{hb[:120]}` in the model",
+                              {"kind": "correspondence", "theorem_or_correspondence": "correspondence ov (many variables)", "ops": ml[:ml.index(ln) + 1], "impl": [ha], "model": [hb]},
+                              tags={"ov:many:differs"})
+                break
     nontrivial = set()
     n_ops = {}
     mism = []
@@ -221,7 +251,8 @@ def run(tier, seed, replay=None):
             mism.append((ci, first))
         if sum(1 for l in cl if l.startswith("oveq")) >= 1 and sum(1 for l in cl if l.startswith("new")) >= 2:
             nontrivial.add("\n".join(cl[1:]))
-        if first is not None or checked < budget:
+        many = sum(1 for l in cl if l.startswith("new")) > 40      # the DPLL oracle does not scale to the many-variable cases: correspondence only
+        if (first is not None or checked < budget) and not many:
             checked += 1
             b = oracle_case(cl, ci_)
             if b:
@@ -259,6 +290,7 @@ def run(tier, seed, replay=None):
         rep.violation(f"{site}: model and implementation agree but {msg}", {"kind": "oracle-agree", "ops": cl[:k + 1], "impl": ci_[:k + 1], "model": cm[:k + 1]}, tags={site})
     if maborts:
         rep.violation("model driver crashed", {"kind": "driver", "theorem_or_correspondence": "oratio_model ov", "log": str(maborts[:3])}, no_input=True)
+    rep.cov["many_variables_probe"] = many_probe
     rep.cov.update({
         "evaluations": len(cases), "distinct_nontrivial": len(nontrivial),
         "rule": "seeded random histories: object variables over overlapping / nested / disjoint / singleton domains (with and without the exactly-one clause, occasional duplicate items), equality requests in both orders and repeated, allows/value queries, then root-level exclusion of random values, propagation and the same queries again; non-trivial = at least two variables and one equality request",
